@@ -139,6 +139,14 @@ def main():
                     fails.append({"signature": "TD_FALCON/targets-valid", "text": "SARSA targets are not complement-coded values in [0,1] for all but the last transition",
                                   "replay": {"alpha": str(al), "lambda": str(la), "idx": idx}})
                 Ql = [float(np.asarray(x).ravel()[0]) for x in Qv]
+                # the published rule on the implementation's own Q values: clip(Q + alpha (r + lambda Q' - Q), 0, 1)
+                for t in range(len(idx) - 1):
+                    want = min(1.0, max(0.0, Ql[t] + float(al) * (float(Re[t][0]) + float(la) * Ql[t + 1] - Ql[t])))
+                    if t < len(rfl) and abs(rfl[t][0] - want) > 1e-9:
+                        fails.append({"signature": "TD_FALCON/sarsa-target", "text": f"transition {t}: target {rfl[t][0]} but clip(Q+alpha(r+lambda Q'-Q)) = {want}",
+                                      "replay": {"td_alpha": str(al), "td_lambda": str(la), "Q": Ql, "rewards": Re.tolist(), "targets": rfl, "episode": ep, "trained": bool(trained),
+                                                 "falcon": {k: str(vv) for k, vv in f.items() if k != "X"}}})
+                        break
                 sstrs.append(f"(mkScall {q(al)} {q(la)} {qlist(Ql)} {qmat([[float(x) for x in r] for r in Re])} {qmat(rfl)})")
                 ssumm.append({"td_alpha": str(al), "td_lambda": str(la), "Q": Ql, "rewards": Re.tolist(), "targets": rfl})
                 td.partial_fit(Se, Ae, Re)
